@@ -485,7 +485,10 @@ fn search_e2e(rng: &mut Rng, walks: usize) -> Option<Cex> {
         }));
         match r {
             Err(_) => return Some(Cex { domain: "e2e", input, expected: "no panic".into(), actual: "panic".into() }),
-            Ok(Err(m)) => return Some(Cex { domain: "e2e", input, expected: "C08 postconditions".into(), actual: m }),
+            Ok(Err(m)) => {
+                let script_text: Vec<String> = script.iter().map(|x| match x { Message::SendData(o, d) => format!("SendData({},{}B:{})", o.0, d.get().len(), hex(&d.get()[..d.get().len().min(16)])), other => format!("{:?}", other) }).collect();
+                return Some(Cex { domain: "e2e", input: format!("{} script=[{}]", input, script_text.join("; ")), expected: "C08 postconditions".into(), actual: m });
+            }
             Ok(Ok(sig)) => { seen.insert(sig); }
         }
     }
